@@ -171,7 +171,7 @@ class C11(Check):
             "model trace replayed on the implementation.")
     assumptions = ["a module in a sub-directory imports only modules of that sub-directory (the grammar cannot name a parent directory)", "a module's exported counter is mutated through its own exported closures"]
     chunksize = 8
-    quick_cap_s = 50
+    quick_cap_s = 300
     thorough_cap_s = 40 * 60
 
     def layers(self, tier):
